@@ -257,6 +257,11 @@ func genMultiTagType(t *rapid.T, mg *msgGen, maxDepth int) (*structGen, desc.T) 
 		extraTags: []string{"alipay", "wechat"}}
 	g.leafRules = func(kind string, v desc.V) string { return genRuleItems(t, kind, v, mg, 3, true) }
 	ty, _ := g.genStruct(0)
+	// either / botheq groups (their per-call table is pooled state too)
+	for _, tag := range multiTags {
+		tag := tag
+		walkTypes(&ty, func(st *desc.T) { addGroups(t, st, tag) })
+	}
 	if len(ty.Fields) == 0 {
 		ty.Fields = append(ty.Fields, desc.F{Name: "A", T: desc.Scalar("string"), Tags: map[string]string{"valid": "required", "alipay": "to=2~3", "wechat": "phone"}})
 	}
